@@ -165,6 +165,13 @@ class _STIXBase(collections.abc.Mapping):
                     else:
                         has_unregistered_toplevel_extension = True
 
+        if has_unregistered_toplevel_extension and \
+                "extensions" not in self._properties and \
+                "extensions" not in registered_toplevel_extension_props:
+            # This type has no "extensions" property, so nothing can extend
+            # it: the claim is itself an unknown property.
+            has_unregistered_toplevel_extension = False
+
         if has_unregistered_toplevel_extension:
             # Must assume all extras are extension properties, not custom.
             custom_kwargs = set()
